@@ -15,7 +15,7 @@ import time
 import tomllib
 
 VERIF = os.path.dirname(os.path.dirname(os.path.abspath(__file__)))
-KDIR = os.path.join(VERIF, "contracts", "kani")
+KDIR = os.environ.get("VERIF_KDIR", os.path.join(VERIF, "contracts", "kani"))
 SCRATCH_ROOT = os.environ.get("VERIF_SCRATCH", "/var/tmp")
 
 OB_RE = re.compile(r"^\s*//\s*@ob\s+(.*)$")
